@@ -1367,6 +1367,83 @@ C16_KEYS = {
 KEY_RENAME = {'loop-exception': 'tick-raised'}
 
 
+def model_verdicts(ctx, items):
+    """Attribution of hangs by the Lean model of the UNCHANGED code.  `items` = [(cfg_dict, trace)].
+    Every history is replayed on the real pool with the tie (then drained under the fair,
+    fault-free scheduler) and piped through EdbVerif.Pool.step.  Verdict per history:
+      'reproduces' - the model agrees with the real pool on EVERY transition up to the stuck
+                     state: the model of the unchanged code shows the same hang;
+      'serves'     - the model disagrees at transition `at` and, continued from its own state
+                     (every task started and answered positively, every woken waiter resumed,
+                     every holder releasing an old connection; no tick needed), serves every
+                     request that is stuck on the real pool;
+      'diverges'   - the model disagrees and the simple continuation does not serve them;
+      'unknown'    - the history did not hang again when replayed / the tie broke."""
+    import random
+    runs, all_lines = [], []
+    for cd, trace in items:
+        tie = Tie()
+        r = Runner(Cfg.from_dict(dict(cd)), on_step=tie)
+        tie.attach(r)
+        try:
+            res = r.replay(trace, drain_rng=random.Random(1), skip_invalid=True)
+            nreq, ntask, mx = len(r.w.reqs), len(tie.pool_tasks), r.w.max
+        except Exception as e:           # noqa
+            res, nreq, ntask, mx = {'stuck': None}, 0, 0, 1
+            tie.broken = tie.broken or repr(e)
+        finally:
+            r.w.close()
+        runs.append({'base': len(all_lines), 'lines': list(tie.lines), 'expect': list(tie.expect),
+                     'stuck': res['stuck'], 'broken': tie.broken, 'nreq': nreq, 'ntask': ntask, 'max': mx})
+        all_lines += tie.lines
+    if not all_lines:
+        return []
+    model = ctx.driver('C15', all_lines)
+    if len(model) != len(all_lines):
+        raise core.Infra(f'driver returned {len(model)} lines for {len(all_lines)}')
+    out, cont_lines, cont = [], [], []
+    for ru in runs:
+        v = {'verdict': 'unknown'}
+        out.append(v)
+        if not ru['stuck'] or ru['broken']:
+            continue
+        v['verdict'] = 'reproduces'
+        for i, (l, e) in enumerate(zip(ru['lines'], ru['expect'])):
+            g = model[ru['base'] + i].partition(' ## ')[0]
+            if e is not None and e != g:
+                ep, gp = e.split(' | '), g.split(' | ')
+                v.update(verdict='diverges', at=i, line=l, protocol_prefix=ru['lines'][:i + 1][-40:],
+                         real_only=[x for x in ep if x not in gp], model_only=[x for x in gp if x not in ep])
+                break
+        if v['verdict'] == 'diverges' and len(cont) < 12:
+            pre = ru['lines'][:v['at'] + 1]
+            nt, nr = ru['ntask'] + 8, ru['nreq']
+            rnd = []
+            for t in range(nt):
+                rnd += [f'start {t}', f'ddone {t} ok', f'cdone {t} ok']
+            rnd += [f'resume {q}' for q in range(nr)] + [f'rel {q} 0' for q in range(nr)]
+            ext = rnd * (2 * nr + 6)
+            cont.append((v, ru, len(cont_lines), len(pre), len(ext)))
+            cont_lines += pre + ext
+    if cont_lines:
+        m2 = ctx.driver('C15', cont_lines)
+        for v, ru, base, npre, next_ in cont:
+            outs = m2[base + npre:base + npre + next_]
+            final = (outs[-1] if outs else '').partition(' ## ')[0].split(' | ')
+            held = set()
+            for o in outs:
+                for part in o.split(' | '):
+                    if part.startswith('H '):
+                        held.add(int(part.split()[1]))
+            still = {int(x.split()[1]) for x in final if x.startswith('W ')}
+            if all(q in held and q not in still for q in ru['stuck']):
+                v['verdict'] = 'serves'
+                v['model_continuation'] = ('from the model state after the disagreeing transition: every task started '
+                                           'and answered ok, woken waiters resumed, holders release; requests '
+                                           f'{sorted(ru["stuck"])} all obtained a connection in the model')
+    return out
+
+
 def gen_cfg(rng, i, ctx) -> Cfg:
     cfg = Cfg(rng, small=(i % 5 == 0), allow_dfail=True)
     cfg.pall = (i % 23 == 7)
@@ -1393,6 +1470,23 @@ def gen_cfg(rng, i, ctx) -> Cfg:
         cfg.ndb = rng.choice([1, 1, 2])
         cfg.max = 1 if cfg.ndb == 1 else rng.choice([2, 3])
         cfg.nreq = 8
+        cfg.pall = False
+        cfg.p_prune = 0.0
+        cfg.p_cfail = 0.0
+        cfg.p_3d = 0.0
+        cfg.p_dfail = 0.0
+        cfg.p_discard = 0.0
+        cfg.gc = 120.0
+        cfg.fifo = rng.random() < 0.7
+    elif i % 19 == 15:
+        # Mode D, every connection is the ONLY one of its block and is handed back YOUNG (sooner
+        # after its connect than max(conntime_avg, MIN_CONN_TIME_THRESHOLD)) while its block has
+        # no waiters; the other databases have queued requests and no connection; no later
+        # traffic on the releasing blocks
+        cfg.shape = 'young-last-conn'
+        cfg.max = rng.choice([1, 1, 2, 3])
+        cfg.ndb = cfg.max + rng.choice([1, 1, 2])
+        cfg.nreq = cfg.ndb + 2
         cfg.pall = False
         cfg.p_prune = 0.0
         cfg.p_cfail = 0.0
@@ -1451,6 +1545,48 @@ def scripted_discard_fail(r: 'Runner', rng, fail=True):
             break
 
 
+def scripted_young_last_conn(r: 'Runner', rng):
+    """prefix of the 'young-last-conn' shape (see gen_cfg): returns after the young, waiter-less
+    last connections were released (and the pool is in Mode D); the fair phase follows"""
+    w, cfg = r.w, r.cfg
+
+    def run_ready():
+        for _ in range(200):
+            if not w.loop.ready_handles():
+                return
+            r.apply('run 0')
+    variant = rng.choice(['tick-before-connect', 'tick-before-connect', 'tick-after-release'])
+    for k in range(cfg.max):                 # these open the whole capacity (connects outstanding)
+        r.apply(f'acq d{k}')
+        run_ready()
+    order = list(range(cfg.max, cfg.ndb))
+    rng.shuffle(order)
+    for k in order:                          # pool full: these are waitlisted, no connection
+        r.apply(f'acq d{k}')
+        if rng.random() < 0.3:
+            r.apply(f'acq d{k}')
+        run_ready()
+    if variant == 'tick-before-connect':
+        if w.loop.pending_timers():
+            r.apply('timer')                 # the tick: Mode D (more databases with demand than capacity)
+        run_ready()
+    else:
+        r.apply('adv 0.004')                 # connections are established shortly before the tick
+    while any(cb['resolved'] is None for cb in w.conn_cbs):
+        r.apply('cdone 0 ok')
+        run_ready()
+    holders = [q for q in w.reqs if q.state == 'holding']
+    rng.shuffle(holders)
+    for q in holders:                        # young connection, block without waiters
+        r.apply(f'rel {q.id} 0')
+        if rng.random() < 0.5:
+            run_ready()
+    if variant == 'tick-after-release':
+        if w.loop.pending_timers():
+            r.apply('timer')
+    run_ready()
+
+
 def scripted_idle_then_new(r: 'Runner', rng):
     """prefix of the 'idle-then-new' shape (see gen_cfg): returns when the new requests are queued"""
     w, cfg = r.w, r.cfg
@@ -1502,6 +1638,10 @@ def one_schedule(seed_str, cfg: Cfg, with_tie=True):
             res = r.run_random(rng)
         elif getattr(cfg, 'shape', None) == 'discard-fail':
             scripted_discard_fail(r, rng, fail=rng.random() < 0.85)
+            cfg.fair_only = True
+            res = r.run_random(rng)
+        elif getattr(cfg, 'shape', None) == 'young-last-conn':
+            scripted_young_last_conn(r, rng)
             cfg.fair_only = True
             res = r.run_random(rng)
         elif getattr(cfg, 'pall', False):
@@ -1685,7 +1825,7 @@ def run_check(ctx: 'core.Ctx', which: str):
         for j in range(ctx.budget(240, 2400)):
             seed_str = f'{ctx.pid}:{ctx.seed}:search:{j}'
             rr = _random.Random('cfg' + seed_str)
-            cfg = gen_cfg(rr, (5, 11, 11, 0)[j % 4], ctx)
+            cfg = gen_cfg(rr, (5, 11, 15, 0)[j % 4], ctx)
             if j % 4 == 3:
                 cfg.p_discard = 0.3
                 cfg.p_dfail = 0.4
@@ -1700,6 +1840,8 @@ def run_check(ctx: 'core.Ctx', which: str):
     # is attributed to the injected faults it depends on (attribute_hang), so a hang that needs a
     # fault is never filed under a fault-free class; the first of every class is shrunk.
     if which == 'C16':
+        keyed = []
+        mverdicts = {}
         for cd, res, label in stuck_runs:
             kinds = []
             if res['faults']:
@@ -1708,14 +1850,42 @@ def run_check(ctx: 'core.Ctx', which: str):
                     kinds = []         # not reproducible from the trace alone: keep the observed class
                 else:
                     res = dict(res2, trace=res2['trace'])
-            key = hang_key(res, kinds)
+            keyed.append((hang_key(res, kinds), cd, res, label, kinds))
+        # a hang is filed under a KNOWN class only when the Lean model of the unchanged code
+        # reproduces the same hang on the same history (model_verdicts); otherwise its key says so
+        cand = [j for j, it in enumerate(keyed) if ctx._match_known(it[0]) is not None]
+        verdicts = model_verdicts(ctx, [(keyed[j][1], keyed[j][2]['trace']) for j in cand]) if cand else []
+        vmap = dict(zip(cand, verdicts))
+        model_info = {}
+        for j, (key, cd, res, label, kinds) in enumerate(keyed):
+            v = vmap.get(j)
+            # ('diverges' = the model disagrees but its simple continuation does not serve the requests
+            # either: stays under the observed class, counted in the evidence; the disagreement itself is
+            # reported by the correspondence stage)
+            # only for the state-shape classes: `after-tick-raised` / `after-prune-inactive` / `after-connect-…`
+            # hangs have their own cause, which the tick-free model continuation does not exercise
+            if v is not None and v['verdict'] == 'serves' and not res['stuck_sig'].startswith('after-'):
+                key = 'stuck:model-' + v['verdict'] + ';' + key[6:]
+            mverdicts[(v or {}).get('verdict', 'not-asked')] = mverdicts.get((v or {}).get('verdict', 'not-asked'), 0) + 1
             sigs[key[6:]] = sigs.get(key[6:], 0) + 1
             if key not in first_stuck:
                 first_stuck[key] = (cd, res, label, kinds)
+                model_info[key] = v
         for key, (cd, res, label, kinds) in first_stuck.items():
             sig = res['stuck_sig']
             small = res['trace']
-            if ctx._match_known(key) is None:
+            if key.startswith('stuck:model-'):
+                # keep the history the model was asked about; only drop the trailing idle timer firings
+                t2 = list(small)
+                while t2 and t2[-1].split()[0] in ('timer', 'run', 'adv'):
+                    t2.pop()
+                try:
+                    x = run_trace(cd, t2, drain_seed=1, skip_invalid=True)
+                    if x['stuck'] and x['stuck_sig'] == sig:
+                        small = t2
+                except Exception:
+                    pass
+            elif ctx._match_known(key) is None:
                 small = shrink(cd, res['trace'],
                                lambda x: bool(x['stuck']) and x['stuck_sig'] == sig and
                                set(kinds) <= {k for _i, k in x['faults']},
@@ -1726,10 +1896,17 @@ def run_check(ctx: 'core.Ctx', which: str):
                      f'requests {full["stuck"]} are never served although, after the last injected fault '
                      f'({"action %d: %s" % (last_fault, "+".join(kinds)) if kinds else "none in this history"}), '
                      f'every holder released, every connect/disconnect succeeded and the timers kept firing '
-                     f'(class: {key[6:]}; fifo={cd.get("fifo")})',
+                     f'(class: {key[6:]}; fifo={cd.get("fifo")})' +
+                     ('; the Lean model of the unchanged code does NOT show this hang on this history: it disagrees '
+                      'with the pool at transition `%s`%s' % (
+                          model_info[key].get('line'),
+                          ' and then serves every one of these requests' if model_info[key]['verdict'] == 'serves' else '')
+                      if key.startswith('stuck:model-') and model_info.get(key) else ''),
                      {'cfg': cd, 'trace': full['trace'], 'final': full['final'], 'case': label,
                       'faults_the_hang_depends_on': kinds, 'fault_actions': full['faults'],
-                      'shrunk_prefix': len(small), 'seen_in_schedules': sigs[key[6:]]})
+                      'shrunk_prefix': len(small), 'seen_in_schedules': sigs[key[6:]],
+                      'model_of_unchanged_code': model_info.get(key)})
+        ctx.cov['hang_attribution_by_model'] = mverdicts
 
     if not proved:
         ctx.proof_broken_verdict()
